@@ -25,6 +25,46 @@ var c11AcceptedPanics = map[string]string{
 	"yqlib.createTraversalTree/panic": "copier.Copy between two values of the same struct type (traversePreferences) cannot fail; the panic documents an impossible state",
 }
 
+// residual variable-index sites: which bound the analysis cannot establish, and the invariant that gives it
+type varResidual struct {
+	part string // "upper" | "lower" | "both"
+	why  string
+}
+
+var c11ResidualVar = map[string]varResidual{
+	"yqlib.applyAssignment/rhs.GetPath()[pathIndexToStartFrom:] low":       {"upper", "DESCENDANT: rhs is a result of the recursive descent over the merge operand with DontFollowAlias (kept true by C04-M5), so its path extends the path of the first result, whose length is pathIndexToStartFrom"},
+	"yqlib.capture/subNames[j + 1]":                                        {"upper", "REGEXP: SubexpNames() has NumSubexp()+1 entries and every submatch list has NumSubexp()+1 entries; j ranges over submatches[1:]"},
+	"yqlib.capture/subNames[j + 1]#2":                                      {"upper", "REGEXP: as above"},
+	"yqlib.capture/allIndices[i]":                                          {"upper", "REGEXP: FindAllStringSubmatch and FindAllStringSubmatchIndex (resp. the single-match forms) return parallel lists; i ranges over allMatches"},
+	"yqlib.capture/allIndices[i][2 + j * 2]":                               {"upper", "REGEXP: an index list has 2*(NumSubexp()+1) entries; j ranges over the NumSubexp() submatches"},
+	"yqlib.match/allIndices[i]":                                            {"upper", "REGEXP: parallel result lists; i ranges over allMatches"},
+	"yqlib.match/allIndices[i]#2":                                          {"upper", "REGEXP: parallel result lists; i ranges over allMatches"},
+	"yqlib.match/allIndices[i][2 + j * 2]":                                 {"upper", "REGEXP: an index list has 2*(NumSubexp()+1) entries; j ranges over the NumSubexp() submatches"},
+	"yqlib.match/subNames[j + 1]":                                          {"upper", "REGEXP: SubexpNames() has NumSubexp()+1 entries; j ranges over submatches[1:]"},
+	"yqlib.containsObject/lhs.Content[lhsKeyIndex + 1]":                    {"upper", "PAIR: lhsKeyIndex is a position returned by findInArray (so < len) that was tested even; children of a mapping come in key/value pairs"},
+	"yqlib.csvObjectDecoder.createObject/contentRow[i]":                    {"upper", "CSVRECT: encoding/csv rejects records whose field count differs from the first record (FieldsPerRecord is left 0, checked by P4c), and the header is the first record"},
+	"yqlib.evalOperator/expressions[expIndex]":                             {"upper", "LISTLEN: made with MatchingNodes.Len() slots and expIndex counts the elements of that same list"},
+	"yqlib.reverseOperator/reverseContent[len(candidate.Content) - i - 1]": {"both", "MIRROR: made with len(candidate.Content) slots and i ranges over candidate.Content, so len-i-1 is in [0, len-1]"},
+	"yqlib.shuffleOperator$1/a[i]":                                         {"both", "SHUFFLE: math/rand.Shuffle(len(a), swap) calls swap with 0 <= i, j < len(a)"},
+	"yqlib.shuffleOperator$1/a[i]#2":                                       {"both", "SHUFFLE: as above"},
+	"yqlib.shuffleOperator$1/a[j]":                                         {"both", "SHUFFLE: as above"},
+	"yqlib.shuffleOperator$1/a[j]#2":                                       {"both", "SHUFFLE: as above"},
+	"yqlib.sliceArrayOperator/lhsNode.Content[i]":                          {"upper", "CLAMPED: i < relativeSecondNumber, which is the requested end when 0 <= end <= len, len+end (< len) for a negative end, and len otherwise"},
+	"yqlib.sortKeys/keys[index / 2]":                                       {"upper", "HALF: keys has len(Content)/2 slots and index is an even position below len(Content)"},
+	"yqlib.sortKeys/sortedContent[index * 2]":                              {"upper", "HALF: sortedContent has len(Content) slots, index < len(keys) = len(Content)/2"},
+	"yqlib.sortKeys/sortedContent[1 + (index * 2)]":                        {"upper", "HALF: as above; len(Content) is even for a mapping"},
+	"yqlib.sortableNodeArray.Less/a[i]":                                    {"both", "SORT: package sort calls Less/Swap with 0 <= i, j < Len(), and Len() is len(a)"},
+	"yqlib.sortableNodeArray.Less/a[i]#2":                                  {"both", "SORT: as above"},
+	"yqlib.sortableNodeArray.Less/a[j]":                                    {"both", "SORT: as above"},
+	"yqlib.sortableNodeArray.Swap/a[i]":                                    {"both", "SORT: as above"},
+	"yqlib.sortableNodeArray.Swap/a[i]#2":                                  {"both", "SORT: as above"},
+	"yqlib.sortableNodeArray.Swap/a[j]":                                    {"both", "SORT: as above"},
+	"yqlib.sortableNodeArray.Swap/a[j]#2":                                  {"both", "SORT: as above"},
+	"yqlib.traverseArrayWithIndices/node.Content[indexToUse]":              {"upper", "PADDED: an index at or past the end either pads the array up to it (writable) or leaves the loop iteration (read-only); a negative one is len+index < len"},
+	"yqlib.trimNonGraphic/[]rune(s)[*first:last + 1] low":                  {"both", "RANGEPOS: first and last are positions of the range loop over []rune(s), first <= last"},
+	"yqlib.trimNonGraphic/[]rune(s)[*first:last + 1] high":                 {"upper", "RANGEPOS: last is a position of the range loop over []rune(s)"},
+}
+
 // residual index sites: key -> invariant that makes the access safe
 var c11ResidualIndex = map[string]string{
 	"cmd.evaluateAll/initCommand()#1:index const 0":                                      "INITCMD: reached only under writeInplace / frontMatter != \"\", and initCommand returns an error for those flags when no file argument is given",
@@ -90,6 +130,7 @@ func runC11(c *Ctx) {
 	r.Rule("P2", "unchecked type assertions agree with what was stored; operand use agrees with NumArgs", 150)
 	r.Rule("P3", "list ends and alias pointers are dereferenced only under a nil / length test", 100)
 	r.Rule("P4", "constant / len-k index and slice bounds are proven or tabled with an invariant", 90)
+	r.Rule("P4v", "variable index and slice bounds are proven in range or tabled with an invariant", 200)
 	r.Rule("P5", "division, Repeat and make arguments are guarded", 3)
 	c.P.buildSSA()
 	ruleP1(c)
@@ -99,6 +140,7 @@ func runC11(c *Ctx) {
 	ruleP4Extract(c)
 	ruleP5(c)
 	ruleL1(c, "P7", 20)
+	ruleP4c(c)
 	// ---- P6 ---------------------------------------------------------------------
 	for _, fn := range c.moduleFuncs() {
 		for _, s := range recoverLostSites(c, fn) {
@@ -153,7 +195,7 @@ func ruleP1(c *Ctx) {
 
 func ruleP4(c *Ctx) {
 	r := c.R
-	np, nv, nvp := 0, 0, 0
+	np, nv, nvp, npair := 0, 0, 0, 0
 	lexMin := lexemeMinLens(c)
 	for _, fn := range c.moduleFuncs() {
 		for _, s := range indexSites(fn) {
@@ -177,17 +219,65 @@ func ruleP4(c *Ctx) {
 				r.Finding("P4", key, c.P.pos(s.Pos), fmt.Sprintf("index/slice needs len ≥ %d but the dominating conditions only give len ∈ %s and no tabled invariant covers it: out-of-range panic for short input", s.Need, s.Fact))
 			}
 		}
+		seenVar := map[string]int{}
 		for _, s := range varIndexSites(fn) {
 			nv++
+			bt, it, ok := indexExprText(c, s.Pos)
+			if !ok {
+				bt, it = exprOfValue(s.Base), exprOfValue(s.Index)
+			}
+			part := ""
+			if s.Slice {
+				// low and high bounds of one slice expression are two obligations
+				if sl, isSl := s.Instr.(*ssa.Slice); isSl && sl.High == s.Index {
+					part = " high"
+				} else {
+					part = " low"
+				}
+			}
+			key := fmt.Sprintf("%s/%s[%s]%s", funcKey(fn), bt, it, part)
+			seenVar[key]++
+			if seenVar[key] > 1 {
+				key = fmt.Sprintf("%s#%d", key, seenVar[key])
+			}
+			pos := c.P.pos(s.Pos)
 			if s.Proven {
 				nvp++
+				if s.Pair {
+					npair++
+				}
+				r.Discharge("P4v", key, pos, s.Why)
+				continue
 			}
+			res, tabled := c11ResidualVar[key]
+			missing := ""
+			switch {
+			case !s.LowOK && !s.UpOK:
+				missing = "both"
+			case !s.LowOK:
+				missing = "lower"
+			default:
+				missing = "upper"
+			}
+			if tabled && (res.part == missing || res.part == "both") {
+				r.Discharge("P4v", key, pos, fmt.Sprintf("%s bound by tabled invariant %s; the rest by the analysis", missing, res.why))
+				continue
+			}
+			what := map[string]string{"both": "neither 0 <= index nor index < len is", "lower": "0 <= index is not", "upper": "index < len is not"}[missing]
+			extra := ""
+			if tabled {
+				extra = fmt.Sprintf(" (the tabled invariant covers only the %s bound: %s)", res.part, res.why)
+			}
+			r.Finding("P4v", key, pos, fmt.Sprintf("variable index: %s established by dominating tests, loop shape, the make() of the slice, the callers or a key-finder contract, and no tabled invariant covers it%s: out-of-range panic for some input", what, extra))
 		}
 	}
 	r.Analysed["index_sites_const_or_len_minus_k_proven"] = np
 	r.Analysed["variable_index_sites"] = nv
 	r.Analysed["variable_index_sites_proven_in_range"] = nvp
-	r.Note("P4: %d variable-index expressions counted, %d of them proved in range by dominating comparisons; the rest are not armed (loop/parity invariants such as 'a map's Content has even length')", nv, nvp)
+	r.Analysed["variable_index_sites_resting_on_pair_invariant"] = npair
+	if npair > 0 {
+		r.Assume(fmt.Sprintf("a mapping node's children come in key/value pairs (even length): %d variable-index sites `s[i+1]` with i stepping over even positions below len(s) rest on it", npair))
+	}
 
 }
 
@@ -843,4 +933,46 @@ func constantString(c *ssa.Const) string {
 		return ""
 	}
 	return constant.StringVal(c.Value)
+}
+
+
+// ruleP4c: the CSVRECT invariant of the residual table holds only while the
+// csv readers keep encoding/csv's default FieldsPerRecord (0: every record
+// must have the field count of the first). Any store to that field is reported.
+func ruleP4c(c *Ctx) {
+	r := c.R
+	r.Rule("P4c", "csv readers keep the default FieldsPerRecord (records are rectangular)", 1)
+	n := 0
+	for _, fn := range c.moduleFuncs() {
+		eachInstr(fn, func(ins ssa.Instruction) {
+			st, ok := ins.(*ssa.Store)
+			if !ok {
+				return
+			}
+			fa, ok := st.Addr.(*ssa.FieldAddr)
+			if !ok || fieldName(fa) != "FieldsPerRecord" {
+				return
+			}
+			n++
+			key := funcKey(fn) + "/FieldsPerRecord="
+			if k, isK := constInt64(st.Val); isK && k == 0 {
+				r.Discharge("P4c", key, c.P.pos(st.Pos()), "explicitly the default")
+				return
+			}
+			r.Finding("P4c", key, c.P.pos(st.Pos()), "the csv reader is told to accept records of varying length; createObject indexes a data row by header position and panics on a shorter row")
+		})
+	}
+	// the readers themselves: every csv.NewReader in the module
+	readers := 0
+	for _, fn := range c.moduleFuncs() {
+		eachInstr(fn, func(ins ssa.Instruction) {
+			if call, ok := ins.(*ssa.Call); ok && calleeName(&call.Call) == "encoding/csv.NewReader" {
+				readers++
+				r.Discharge("P4c", funcKey(fn)+"/csv.NewReader", c.P.pos(call.Pos()), "reader created with default FieldsPerRecord")
+			}
+		})
+	}
+	if readers == 0 {
+		r.Note("P4c: no csv.NewReader call found in the module")
+	}
 }
